@@ -368,6 +368,23 @@ const RISKY_LINES: &[&str] = &[
     "Log('a, b, c => d');",
 ];
 
+/// every literal class of the lexer, and strings with every character that means something elsewhere
+const ALL_LITERALS: &[&str] = &[
+    "TOD#12:30:00", "LTOD#15:36:55.36", "TIME_OF_DAY#01:02:03", "tod#08:00:00", "DT#2024-01-15-14:30:00",
+    "LDT#1984-06-25-15:36:55.36", "DATE_AND_TIME#2024-01-15-14:30:00", "T#1h30m", "TIME#-5s", "LTIME#5m_30s", "t#5ms",
+    "D#2024-01-15", "LDATE#2012-02-29", "16#FF", "2#1010_0101", "8#77", "1_000", "3.14", "1.0E10", "2.5e-3", "INT#5",
+    "UINT#16#FF", "REAL#1.5", "TRUE", "'a:b'", "'x := 1'", "'k => v'", "'a,b;c'", "'// no'", "'(* no *)'", "'{p}'",
+    "'it$'s'", "'100% #1 @x ^y'", "'\u{1F600}:\u{1F680}'", "\"w:x\"", "\"a$\"b\"", "%IX0.0", "%MD100",
+];
+
+/// unterminated last lines with characters outside the BMP followed by more text (UTF-16 columns)
+const ASTRAL_LAST_LINES: &[&str] = &[
+    "msg:='ok \u{1F600} done';n:=n+1;",
+    "END_PROGRAM // \u{1F680}\u{1F680} lift-off",
+    "x:=1; (* \u{1D400}\u{1D401} math *) y:=2;",
+    "    s := \"w\u{1F600}w\";  // \u{1F600} tail",
+];
+
 const STRINGS: &[&str] = &[
     "'http://plc.local/api'", "'see // docs'", "'gain => high'", "'level := 0'",
     "'a'", "''", "'it$'s'", "'a:b'", "'x := 1'", "'a,b,c,d,e,f'", "'(* no comment *)'", "'// no'", "'{not pragma}'",
@@ -608,6 +625,7 @@ impl<'a> TextGen<'a> {
             5 => self.lines.push("   ".into()),
             6 | 7 if self.blank_runs => self.blank_run(),
             8 => self.risky_group(indent),
+            9 => self.literal_stmts(indent),
             _ => {}
         }
     }
@@ -619,6 +637,61 @@ impl<'a> TextGen<'a> {
         for _ in 0..n {
             let l = *self.r.pick(&["", "", "", "  ", "\t", "    \t"]);
             self.lines.push(l.to_string());
+        }
+    }
+
+    /// declarations with every literal class in the initialiser: single line, array initialiser, initialiser
+    /// continued on a line that also holds the next declaration, shuffled declaration (literal in front of
+    /// the type colon), with short and long names so that the colon alignment has to pad
+    fn literal_decls(&mut self, indent: usize) {
+        self.tags.insert("literal-positions");
+        let n = 2 + self.r.below(4);
+        for _ in 0..n {
+            let name = *self.r.pick(&["t", "opens", "start_of_shift", "x", "a_much_longer_name", "n1"]);
+            let ty = *self.r.pick(&["TOD", "DT", "TIME", "INT", "STRING", "WORD", "LTOD", "DATE"]);
+            let l1 = *self.r.pick(ALL_LITERALS);
+            let l2 = *self.r.pick(ALL_LITERALS);
+            let sp = *self.r.pick(&[" ", "", "  "]);
+            match self.r.below(6) {
+                0 | 1 => self.push(indent, format!("{name}{sp}:{sp}{ty} := {l1};")),
+                2 => self.push(indent, format!("{name}{sp}: ARRAY[0..1] OF {ty} := [{l1}, {l2}];")),
+                3 => {
+                    self.push(indent, format!("{name}{sp}: ARRAY[0..1] OF {ty} := [{l1},"));
+                    let next = *self.r.pick(&["closed", "b", "another_flag"]);
+                    self.push(indent + 1, format!("{l2}]; {next}{sp}: BOOL;"));
+                }
+                4 => self.push(indent, format!("{l1} {name}{sp}:{sp}{ty};")),
+                _ => self.push(indent, format!("{name}, other{sp}: {ty} := {l1}; // c: d := {l2}")),
+            }
+        }
+    }
+
+    /// the same literals in assignments of different width, named call arguments and CASE labels
+    fn literal_stmts(&mut self, indent: usize) {
+        self.tags.insert("literal-positions");
+        let n = 2 + self.r.below(3);
+        for _ in 0..n {
+            let name = *self.r.pick(&["t", "opens", "start_of_shift", "x", "a_much_longer_name"]);
+            let l1 = *self.r.pick(ALL_LITERALS);
+            let sp = *self.r.pick(&[" ", "", "  "]);
+            self.push(indent, format!("{name}{sp}:={sp}{l1};"));
+        }
+        if self.r.bool() {
+            let (a, b, c) = (*self.r.pick(ALL_LITERALS), *self.r.pick(ALL_LITERALS), *self.r.pick(ALL_LITERALS));
+            self.push(indent, format!("fb(IN := {a}, PT => {b}, Q:={c});"));
+        }
+        if self.r.bool() {
+            self.push(indent, "CASE sel OF".into());
+            for _ in 0..(1 + self.r.below(3)) {
+                let (a, b, c) = (*self.r.pick(ALL_LITERALS), *self.r.pick(ALL_LITERALS), *self.r.pick(ALL_LITERALS));
+                let sp = *self.r.pick(&[" ", ""]);
+                if self.r.bool() {
+                    self.push(indent + 1, format!("{a}{sp}: y := {c};"));
+                } else {
+                    self.push(indent + 1, format!("{a}, {b}{sp}:{sp}y:={c};"));
+                }
+            }
+            self.push(indent, "END_CASE".into());
         }
     }
 
@@ -663,7 +736,13 @@ impl<'a> TextGen<'a> {
         self.lines.push(format!("PROGRAM {}", self.r.pick(IDENTS)));
         let n = 2 + self.r.below(5);
         for _ in 0..n {
-            match self.r.below(7) {
+            match self.r.below(10) {
+                7 => {
+                    self.push(1, "VAR".into());
+                    self.literal_decls(2);
+                    self.push(1, "END_VAR".into());
+                }
+                8 | 9 => self.literal_stmts(1),
                 0 => self.long_call(1),
                 1 | 2 => self.blank_run(),
                 3 | 4 => self.risky_group(1),
@@ -688,6 +767,10 @@ impl<'a> TextGen<'a> {
         let n = self.r.below(6);
         for _ in 0..n {
             self.decoration(indent + 1);
+            if self.r.chance(1, 5) {
+                self.literal_decls(indent + 1);
+                continue;
+            }
             let mut toks = vec![self.ident()];
             if self.r.chance(1, 5) {
                 toks.push(",".into());
@@ -1037,12 +1120,19 @@ impl<'a> TextGen<'a> {
     }
 
     /// join the lines with LF or CRLF (sometimes mixed); returns the text and the tags
-    pub fn finish(self) -> (String, Vec<&'static str>) {
+    pub fn finish(mut self) -> (String, Vec<&'static str>) {
         let mut tags: Vec<&'static str> = self.tags.iter().copied().collect();
         let crlf = self.r.below(10) < 3;
         let nl = if crlf { "\r\n" } else { "\n" };
+        let astral = self.r.chance(1, 8);
+        if astral {
+            // the document ends, without a line terminator, in a line with characters outside the BMP
+            tags.push("astral-last-line");
+            let l = *self.r.pick(ASTRAL_LAST_LINES);
+            self.lines.push(l.to_string());
+        }
         let mut s = self.lines.join(nl);
-        if self.r.chance(5, 6) {
+        if !astral && self.r.chance(5, 6) {
             s.push_str(nl);
         }
         if crlf {
@@ -1347,39 +1437,59 @@ fn parse_reply(r: Result<Value, LspErr>) -> Reply {
     }
 }
 
-/// LSP position -> byte offset (lines end at '\n', columns are UTF-16 code units, clamped to the line).
-fn offset_of(text: &str, line: u32, col: u32) -> usize {
-    let mut off = 0usize;
-    let mut l = 0u32;
-    for piece in text.split_inclusive('\n') {
-        if l == line {
-            let mut c = 0u32;
-            for (i, ch) in piece.char_indices() {
-                if c >= col || ch == '\n' {
-                    return off + i;
-                }
-                c += ch.len_utf16() as u32;
-            }
-            return off + piece.len();
-        }
-        off += piece.len();
-        l += 1;
+/// The editor's side of an edit (same model as the C14 harness): the buffer is a sequence of UTF-16 code
+/// units and an LSP position is (line, UTF-16 column) ON THAT BUFFER - the server's byte offsets are never
+/// trusted.  A column beyond the end of the line is clamped to the line end (LSP 3.17, Position), a column
+/// inside a surrogate pair is moved behind the pair, a line beyond the last line is the end of the text.
+/// Lines end at LF (CR LF included); a lone CR is not a line break here - that disagreement between
+/// editors and this server is C14's subject, and the generator does not produce lone CRs for LSP requests.
+pub struct Editor {
+    pub u: Vec<u16>,
+}
+
+impl Editor {
+    pub fn new(text: &str) -> Editor {
+        Editor { u: text.encode_utf16().collect() }
     }
-    text.len()
+
+    pub fn offset(&self, line: u32, col: u32) -> usize {
+        let mut start = 0usize;
+        let mut l = 0u32;
+        while l < line {
+            match self.u[start..].iter().position(|c| *c == 10) {
+                Some(k) => start += k + 1,
+                None => return self.u.len(),
+            }
+            l += 1;
+        }
+        let mut end = self.u[start..].iter().position(|c| *c == 10).map(|k| start + k).unwrap_or(self.u.len());
+        if end > start && self.u[end - 1] == 13 && end < self.u.len() {
+            end -= 1; // the CR of a CR LF pair belongs to the terminator
+        }
+        let mut k = (start + col as usize).min(end);
+        if k < self.u.len() && (0xDC00..0xE000).contains(&self.u[k]) && k > start {
+            k += 1;
+        }
+        k
+    }
+
+    pub fn text(&self) -> String {
+        String::from_utf16_lossy(&self.u)
+    }
 }
 
 pub fn apply_edits(text: &str, edits: &[(u32, u32, u32, u32, String)]) -> String {
-    let mut es: Vec<(usize, usize, &str)> = edits
+    let mut ed = Editor::new(text);
+    let mut es: Vec<(usize, usize, Vec<u16>)> = edits
         .iter()
-        .map(|(sl, sc, el, ec, t)| (offset_of(text, *sl, *sc), offset_of(text, *el, *ec), t.as_str()))
+        .map(|(sl, sc, el, ec, t)| (ed.offset(*sl, *sc), ed.offset(*el, *ec), t.encode_utf16().collect()))
         .collect();
     es.sort_by_key(|e| std::cmp::Reverse(e.0));
-    let mut s = text.to_string();
     for (a, b, t) in es {
-        let (a, b) = (a.min(s.len()), b.min(s.len()).max(a.min(s.len())));
-        s.replace_range(a..b, t);
+        let b = b.max(a);
+        ed.u.splice(a..b, t);
     }
-    s
+    ed.text()
 }
 
 // ---------------------------------------------------------------------------------------------
@@ -1902,6 +2012,10 @@ fn dense_positions(r: &mut Rng, text: &str, k: usize) -> (Vec<(u32, u32, u32, u3
     let (mut ranges, mut pos) = gen_positions(r, text);
     let lines: Vec<&str> = text.split('\n').collect();
     let code: Vec<u32> = lines.iter().enumerate().filter(|(_, l)| !l.trim().is_empty()).map(|(i, _)| i as u32).collect();
+    if let Some(last) = code.last() {
+        pos.push((*last, 2));
+        ranges.push((last.saturating_sub(1), 0, *last, 1));
+    }
     for _ in 0..k {
         if code.is_empty() {
             break;
@@ -1946,6 +2060,16 @@ fn neighbour_text(r: &mut Rng, source: &str) -> String {
                 t.push_str(");");
                 snippet.push(t);
             }
+            2 => {
+                // literals with ':' in alignment-sensitive positions
+                let (a, b) = (*r.pick(ALL_LITERALS), *r.pick(ALL_LITERALS));
+                snippet.push(format!("{lead}VAR"));
+                snippet.push(format!("{lead}    opens : ARRAY[0..1] OF TOD := [{a},"));
+                snippet.push(format!("{lead}        {b}]; closed : BOOL;"));
+                snippet.push(format!("{lead}    {a} t : TOD;"));
+                snippet.push(format!("{lead}    a_much_longer_name : DT := {b};"));
+                snippet.push(format!("{lead}END_VAR"));
+            }
             _ => {
                 for _ in 0..(1 + r.below(3)) {
                     snippet.push(format!("{lead}{}", r.pick(RISKY_LINES)));
@@ -1955,6 +2079,12 @@ fn neighbour_text(r: &mut Rng, source: &str) -> String {
         for (k, l) in snippet.into_iter().enumerate() {
             lines.insert((at + k).min(lines.len()), l);
         }
+    }
+    if r.chance(1, 4) {
+        while lines.last().map(|l| l.trim().is_empty()).unwrap_or(false) {
+            lines.pop();
+        }
+        lines.push(r.pick(ASTRAL_LAST_LINES).to_string());
     }
     lines.join(if crlf { "\r\n" } else { "\n" })
 }
@@ -2197,6 +2327,12 @@ pub fn run(args: &Args) -> i32 {
                 out.line("tag nontrivial");
             }
             let (mut ranges, mut pos) = gen_positions(&mut r, &text);
+            if tags.contains(&"astral-last-line") {
+                // requests that reach the unterminated last line
+                let last = text.split('\n').count() as u32 - 1;
+                pos.push((last, 3));
+                ranges.push((last.saturating_sub(r.below(3) as u32), 0, last, 2));
+            }
             if risky {
                 // several more requests, aimed at non-blank lines
                 let code_lines: Vec<u32> = text.split('\n').enumerate().filter(|(_, l)| !l.trim().is_empty()).map(|(i, _)| i as u32).collect();
